@@ -82,6 +82,7 @@ BOUNDS = {
         "sentinel": "6 names (5 builtins + control) x {render argument, page argument, <% %>} x {UNDEFINED, None, default object} x {body, def} x 6 read forms (+strict for bare reads)",
         "attrs": "15 multi-expression tags x placements {body, def, anonymous block, call body} x {all present, each name absent} x strict on/off",
         "cached": "6 cached sections x 4 key forms x 4 render sequences x strict on/off",
+        "rebind": "9 value sequences of 4 steps (equal objects of different type, equal containers, controls) x first binding {<% %>, page argument, render argument} x call form {${f()}, capture(f), <%call>, inside % for} x strict on/off; + in-place mutation, augmented assignment and other-name sequences; each Template rendered twice",
         "imports": "one sequence per run: 28 reader operations, 20 binder operations, the readers again, the binders again (96 operations in one process)",
         "flagname": "24 read sites x 10 spellings (9 escape-flag names + control) x {present, absent} x strict on/off, minus str-present",
     },
@@ -95,6 +96,7 @@ BOUNDS = {
         "sentinel": "6 names (5 builtins + control) x {render argument, page argument, <% %>} x {UNDEFINED, None, default object} x {body, def} x 6 read forms (+strict for bare reads)",
         "attrs": "15 multi-expression tags x placements {body, def, anonymous block, call body} x {all present, each name absent} x strict on/off",
         "cached": "6 cached sections x 4 key forms x 4 render sequences x strict on/off",
+        "rebind": "9 value sequences of 4 steps (equal objects of different type, equal containers, controls) x first binding {<% %>, page argument, render argument} x call form {${f()}, capture(f), <%call>, inside % for} x strict on/off; + in-place mutation, augmented assignment and other-name sequences; each Template rendered twice",
         "imports": "one sequence per run: 28 reader operations, 20 binder operations, the readers again, the binders again (96 operations in one process)",
         "flagname": "24 read sites x 10 spellings (9 escape-flag names + control) x {present, absent} x strict on/off, minus str-present",
     },
@@ -1617,6 +1619,113 @@ def kwargs_cases():
 
 
 # --------------------------------------------------------------------------
+# family rebind: "defs called by name from the body see the CURRENT values of its <% %> assignments" along a sequence of
+# re-bindings in one render.  The values of a sequence are chosen so that a snapshot compared by equality, by hash or by
+# identity would each be fooled once: equal objects of different type (1, True, 1.0), equal containers holding them, one
+# object mutated in place, and plain changing controls.  Formula oracle: the concatenation of [type:repr] of every step.
+
+REBIND_SEQS = {
+    "equal-numbers-of-different-type": ["1", "True", "1.0", "1"],
+    "equal-zeroes-of-different-type": ["0", "False", "0.0", "-0.0"],
+    "equal-tuples-of-different-content": ["(1, 0)", "(True, False)", "(1.0, 0.0)", "(1, 0)"],
+    "equal-lists-of-different-content": ["[1]", "[True]", "[1.0]", "[1]"],
+    "equal-dicts-of-different-content": ["{'k': 1}", "{'k': True}", "{True: 1}", "{1.0: 1.0}"],
+    "equal-strings-control": ["'a'", "'b'", "'a'", "'b'"],
+    "changing-numbers-control": ["1", "2", "3", "1"],
+    "same-value-control": ["7", "7", "7", "7"],
+    "None-and-UNDEFINED": ["None", "UNDEFINED", "None", "0"],
+}
+REBIND_FIRST = ["assign", "page", "ctx"]  # how the first value is bound; the later ones are <% %> assignments
+REBIND_CALLS = {"direct": "${f()}", "capture": "${capture(f)}", "call-tag": "<%call expr=\"f()\"></%call>", "in-for": "\n% for zi in [0]:\n${f()}\n% endfor\n"}
+REBIND_KINDS = ["rebind", "mutate", "augment", "other-name"]
+
+
+def rebind_cases():
+    for seq in REBIND_SEQS:
+        for first in REBIND_FIRST:
+            for call in REBIND_CALLS:
+                for strict in (False, True):
+                    yield {"kind": "rebind", "seq": seq, "first": first, "call": call, "strict": strict}
+    for kind in REBIND_KINDS[1:]:
+        for first in REBIND_FIRST:
+            if (kind, first) in (("mutate", "page"), ("augment", "ctx")):
+                continue  # a mutable <%page> default is shared between renders as in Python; += on a name never assigned before
+            for call in REBIND_CALLS:
+                yield {"kind": kind, "seq": "", "first": first, "call": call, "strict": False}
+
+
+def check_rebind(al, c, st):
+    from mako.template import Template
+    from mako.runtime import UNDEFINED
+
+    n, m = al.name, al.name2
+    kind, first, call = c["kind"], c["first"], REBIND_CALLS[c["call"]]
+    if kind == "rebind":
+        vals = REBIND_SEQS[c["seq"]]
+        steps = ["%s = %s" % (n, v) for v in vals]
+        v0 = vals[0]
+    elif kind == "mutate":  # one list object, changed in place between the calls, re-bound to an equal copy at the end
+        v0 = "[]"
+        steps = ["%s = []" % n, "%s.append(1)" % n, "%s.append(True)" % n, "%s = list(%s)" % (n, n)]
+        if first == "ctx":
+            steps = steps[:3] + ["%s.append(1.0)" % n]  # never assigned in the body: stays a context name, the object changes
+    elif kind == "augment":
+        v0 = "(1,)"
+        steps = ["%s = (1,)" % n, "%s += (True,)" % n, "%s = %s[:1]" % (n, n), "%s = (1.0,) + %s[1:]" % (n, n)]
+    else:  # another body variable changes while this one stays: both are shown
+        v0 = "1"
+        steps = ["%s = 1" % n, "%s = True" % m, "%s = 1.0" % m, "%s = 1" % m]
+    head, ctx = "", {}
+    if first == "page":
+        head = '<%%page args="%s=%s"/>\n' % (n, v0)
+        steps = steps[1:]
+    elif first == "ctx":
+        steps = steps[1:]
+    src = head + ("" if first == "assign" else call)
+    for s_ in steps:
+        src += "<%% %s %%>" % s_ + call
+    src += '<%%def name="f()">[${type(%s).__name__}:${repr(%s)}|${type(%s).__name__}:${repr(%s)}]</%%def>' % (n, n, m, m)
+    st.oracles["rebind"] += 1
+    t = None
+    exp = None
+    for rnd in (1, 2):  # the same Template object rendered twice; oracle: plain Python, fresh values per render
+        g = {"UNDEFINED": UNDEFINED}
+        scope = {m: "k"}
+        shown = []
+
+        def show():
+            shown.append("[%s:%r|%s:%r]" % (type(scope[n]).__name__, scope[n], type(scope[m]).__name__, scope[m]))
+
+        ctx = {m: "k"}
+        if first != "assign":
+            scope[n] = eval(v0, g)
+            if first == "ctx":
+                ctx[n] = eval(v0, g)  # its own object: the template changes it in place
+            show()
+        for s_ in steps:
+            exec(s_, g, scope)
+            show()
+        exp = "".join(shown)
+        st.evaluations += 1
+        st.transitions += len(shown)
+        try:
+            t = t or Template(src, strict_undefined=c["strict"])
+            obs = t.render_unicode(**ctx)
+            obs = "".join(obs.split("\n"))
+        except Exception as e:  # noqa
+            obs = "%s: %s" % (type(e).__name__, e)
+        ok = obs == exp
+        st.outcomes[("rebind", kind, "ok" if ok else "differs")] += 1
+        if not ok:
+            sig = "rebind:%s:%s:first-%s" % (kind, c["seq"] or "-", first)
+            st.violation(sig, {"fam": "rebind", "c": c, "seed": al.seed, "template": src, "render": rnd}, "a def called by name from the body sees the current values (formula)", expected=exp, observed=obs)
+            break
+    st.traces += 1
+    if st.traces % 97 == 1:
+        st.sample({"fam": "rebind", "c": c, "template": src, "expected": exp})
+
+
+# --------------------------------------------------------------------------
 # jobs
 
 
@@ -1632,6 +1741,7 @@ def plan(tier, seed):
     jobs += [{"kind": "sentinel", "tier": tier, "seed": seed, "shard": i, "nshards": 3} for i in range(3)]
     jobs += [{"kind": "attrs", "tier": tier, "seed": seed, "shard": i, "nshards": 2} for i in range(2)]
     jobs.append({"kind": "cached", "tier": tier, "seed": seed})
+    jobs.append({"kind": "rebind", "tier": tier, "seed": seed})
     return jobs
 
 
@@ -1687,9 +1797,9 @@ def _run_job(job, st):
         st.extra["kwargs_cases"] = st.states
     elif kind == "imports":
         run_imports_family(al, st)
-    elif kind in ("sentinel", "attrs", "cached"):
-        gen = {"sentinel": lambda: sentinel_cases(al), "attrs": attrs_cases, "cached": cached_cases}[kind]()
-        fn = {"sentinel": check_sentinel, "attrs": check_attrs, "cached": check_cached}[kind]
+    elif kind in ("sentinel", "attrs", "cached", "rebind"):
+        gen = {"sentinel": lambda: sentinel_cases(al), "attrs": attrs_cases, "cached": cached_cases, "rebind": rebind_cases}[kind]()
+        fn = {"sentinel": check_sentinel, "attrs": check_attrs, "cached": check_cached, "rebind": check_rebind}[kind]
         n = 0
         for i, c in enumerate(gen):
             if i % job.get("nshards", 1) != job.get("shard", 0):
@@ -1711,7 +1821,7 @@ def _run_job(job, st):
 
 def post(tier, seed, st):
     walls = st.extra.pop("job_walls", [])
-    for k in ("res", "stmt", "reread", "reserved", "kwargs", "flagname", "imports", "sentinel", "attrs", "cached"):
+    for k in ("res", "stmt", "reread", "reserved", "kwargs", "flagname", "imports", "sentinel", "attrs", "cached", "rebind"):
         st.extra.pop("job_wall_max_s_" + k, None)
     st.extra["slowest_job_wall_s"] = max([w[2] for w in walls] or [0])
     st.extra["alphabet"] = {k: v for k, v in Alpha(seed).__dict__.items()}
@@ -1731,8 +1841,8 @@ def replay(case):
         check_kwargs(case["c"], st)
     elif fam == "flagname":
         check_flag(Alpha(case["seed"]), case["c"], st)
-    elif fam in ("sentinel", "attrs", "cached"):
-        {"sentinel": check_sentinel, "attrs": check_attrs, "cached": check_cached}[fam](Alpha(case["seed"]), case["c"], st)
+    elif fam in ("sentinel", "attrs", "cached", "rebind"):
+        {"sentinel": check_sentinel, "attrs": check_attrs, "cached": check_cached, "rebind": check_rebind}[fam](Alpha(case["seed"]), case["c"], st)
     elif fam == "imports":
         r = check_imports_op(Alpha(case["seed"]), case["op"], st)
         if r is not None:
